@@ -23,6 +23,8 @@ structure DSt where
   smp : Option (Sampler Float) := none
   q : List (List Float) := []
   cur : List Float := []
+  batch : Nat := 10
+  ordQ : List (List Float × Unit) := []
 
 def init (ts : List String) : Option DSt :=
   match ts with
@@ -67,6 +69,26 @@ def hypOk (n : Nat) (f1 f2 : List Float) (cols : List (List Float)) : Bool :=
     decide ((d - (if i == j then 1.0 else 0.0)).abs ≤ tol))) &&
   (List.zipWith (fun a b => decide ((a - b).abs ≤ tol)) (cols.getD 0 []) axis).all id
 
+/-- in dimension 2 the model computes the rotation itself (`rot2`: the unique proper rotation whose first column is
+the focal axis) and the recovered one must agree with it at 1e-9 (this also checks `det = +1`) -/
+def rot2Ok (n : Nat) (f1 f2 : List Float) (cols : List (List Float)) : Bool :=
+  if n != 2 then true
+  else
+    let m := rot2 f1 f2
+    m.length == 2 &&
+    (List.zipWith (fun a b => (List.zipWith (fun x y => decide ((x - y).abs ≤ 1e-9)) a b).all id) m cols).all id
+
+/-- `[r1, ball (n values), r2]` per iteration -/
+def drawsGo (n : Nat) : Nat → List Float → List (Draw Float Unit)
+  | 0, _ => []
+  | fuel + 1, l =>
+    if l.length < n + 2 then []
+    else
+      { baseInf := [], baseRest := (), r1 := l.headD 0, ball := (l.drop 1).take n, r2 := (l.drop (n + 1)).headD 0,
+        rot := () } :: drawsGo n fuel (l.drop (n + 2))
+
+def drawsOf (n : Nat) (l : List Float) : List (Draw Float Unit) := drawsGo n l.length l
+
 def costOf (s : String) : Option (Bool × Float) :=
   if s == "inf" then some (false, 1.0 / 0.0)
   else match parseFloatBits? s with
@@ -79,6 +101,15 @@ def rvInBounds (lo hi : Float) (st : List Float × Unit) : Bool :=
 
 def mkDraws (q : List (List Float)) : List (Draw Float Unit) :=
   q.map (fun v => { baseInf := v, baseRest := (), r1 := 0, ball := [], r2 := 0, rot := () })
+
+/-- `createBatch` of an OrderedInfSampler over the rejection sampler: `batch` wrapped calls on the scripted draw queue -/
+def createBatch (h : List Float × Unit → Float) (lim : Nat) (c : Float) (n : Nat) :
+    Nat → List (List Float) → List (Wrapped (List Float × Unit)) → Option (List (Wrapped (List Float × Unit)) × List (List Float))
+  | 0, q, acc => some (acc.reverse, q)
+  | b + 1, q, acc =>
+    let o := rejSample2 h lim c (mkDraws q) (List.replicate n 0, ())
+    if o.starved then none
+    else createBatch h lim c n b (q.drop (q.length - o.rest.length)) ((o.found, o.st) :: acc)
 
 def showOut (op : String) (st : DSt) (q : List (List Float)) (o : Out Float Unit) : DSt × String :=
   if o.starved then ({ st with q := [] }, op ++ " starved")
@@ -112,7 +143,7 @@ def step (st : DSt) (ts : List String) : DSt × String :=
         match takeVec rest (p.dim * p.dim) with
         | some (r, []) =>
           let cols := toCols p.dim r
-          if hypOk p.dim p.f1 p.f2 cols then
+          if hypOk p.dim p.f1 p.f2 cols && rot2Ok p.dim p.f1 p.f2 cols then
             ({ st with phs := st.phs.setIfInBounds k { p with rot := cols } }, "rot hyp=1")
           else (st, "rot hyp=0")
         | _ => (st, "bad-op")
@@ -209,7 +240,10 @@ def step (st : DSt) (ts : List String) : DSt × String :=
       | some (vs, []) => ({ st with goals := vs }, "goals ok")
       | _ => (st, "bad-op")
     | none => (st, "bad-op")
-  | "mk" :: skind :: ni :: thr :: _ =>
+  | "mk" :: skind :: ni :: thr :: more =>
+    let batch := match more with
+      | b :: _ => (parseNat? b).getD 10
+      | [] => 10
     match parseNat? ni, parseFloatBits? thr with
     | some ni, some thr =>
       if st.kind == "" || st.starts.isEmpty || st.goals.isEmpty then (st, "bad-op") else
@@ -221,6 +255,7 @@ def step (st : DSt) (ts : List String) : DSt × String :=
         { phss := phss, summed := 0, numIters := ni, infMeasure := st.infMeas, unMeasure := st.unMeas,
           spaceMeasure := st.totMeas }
       ({ st with skind := skind, thr := thr, numIters := ni, smp := if direct then some smp else none, q := [],
+                 batch := batch, ordQ := [],
                  cur := List.replicate st.n 0 },
         s!"mk ok nphs={if direct then phss.length else 0} has={if direct then 1 else 0}")
     | _, _ => (st, "bad-op")
@@ -232,7 +267,7 @@ def step (st : DSt) (ts : List String) : DSt × String :=
         match takeVec rest (p.dim * p.dim) with
         | some (r, []) =>
           let cols := toCols p.dim r
-          if hypOk p.dim p.f1 p.f2 cols then
+          if hypOk p.dim p.f1 p.f2 cols && rot2Ok p.dim p.f1 p.f2 cols then
             ({ st with smp := some { s with phss := s.phss.map (fun q => if q.id == k then { q with rot := cols } else q) } },
               "rot hyp=1")
           else (st, "rot hyp=0")
@@ -279,6 +314,85 @@ def step (st : DSt) (ts : List String) : DSt × String :=
       match takeVecs rest k st.n with
       | some (vs, []) => ({ st with q := st.q ++ vs }, s!"base ok q={(st.q ++ vs).length}")
       | _ => (st, "bad-op")
+    | none => (st, "bad-op")
+  | ["nball", n, r] =>
+    match parseNat? n, parseFloatBits? r with
+    | some n, some r => if n ≤ 400 then (st, "nball ~m=" ++ floatBits (nBallMeasure n r)) else (st, "bad-op")
+    | _, _ => (st, "bad-op")
+  | "sup" :: seed :: c :: rest =>
+    match parseNat? seed, parseFloatBits? c, st.smp, rest.mapM parseFloatBits? with
+    | some _, some c, some s, some vals =>
+      if st.kind != "rv" || st.skind != "direct" then (st, "bad-op") else
+      let s' := s.update c
+      if s'.useBoundsBranch then ({ st with smp := some s' }, "sup bounds-branch")
+      else if vals.length != s.numIters * (st.n + 2) then (st, "bad-op")
+      else
+        let ds := drawsOf st.n vals
+        let r := s.sample2 (rvInBounds st.lo st.hi) true c ds (st.cur, ())
+        let o := r.2
+        ({ st with smp := some r.1, cur := o.st.1 },
+          s!"sup found={if o.found then 1 else 0} used={o.iters} ~x={if o.found then vecBits o.st.1 else "-"} inb={if o.found then (if rvInBounds st.lo st.hi o.st then "1" else "0") else "-"}")
+    | _, _, _, _ => (st, "bad-op")
+  | "sup3" :: seed :: mc :: c :: rest =>
+    match parseNat? seed, parseFloatBits? mc, parseFloatBits? c, st.smp, rest.mapM parseFloatBits? with
+    | some _, some mc, some c, some s, some vals =>
+      if st.kind != "rv" || st.skind != "direct" then (st, "bad-op") else
+      let s' := s.update c
+      if s'.useBoundsBranch then ({ st with smp := some s' }, "sup3 bounds-branch")
+      else if vals.length != s.numIters * (st.n + 2) then (st, "bad-op")
+      else
+        let ds := drawsOf st.n vals
+        let r := s.sample3 (rvInBounds st.lo st.hi) true mc c ds (st.cur, ())
+        let o := r.2
+        let used := ds.length - o.rest.length
+        ({ st with smp := some r.1, cur := o.st.1 },
+          s!"sup3 found={if o.found then 1 else 0} used={used} ~x={if o.found then vecBits o.st.1 else "-"} inb={if o.found then (if rvInBounds st.lo st.hi o.st then "1" else "0") else "-"}")
+    | _, _, _, _, _ => (st, "bad-op")
+  | ["iss", c] =>
+    if st.kind != "rv" then (st, "bad-op") else
+    match costOf c with
+    | some (fin, c) =>
+      let run (o : Out Float Unit) (st : DSt) : DSt × String :=
+        if o.starved then ({ st with q := [] }, "iss starved")
+        else
+          match informedStateSample o with
+          | none => ({ st with q := [] }, "iss starved")
+          | some (x, rest, _) =>
+            let used := st.q.length - rest.length
+            ({ st with q := st.q.drop used, cur := x.1 },
+              s!"iss used={used} x={vecBits x.1} inb={if rvInBounds st.lo st.hi x then 1 else 0}")
+      if st.skind == "direct" then
+        match st.smp with
+        | some s =>
+          let s' := if fin then s.update c else s
+          if fin && !s'.useBoundsBranch then ({ st with smp := some s' }, "iss phs-branch")
+          else
+            let r := s.sample2 (rvInBounds st.lo st.hi) fin c (mkDraws st.q) (st.cur, ())
+            run r.2 { st with smp := some r.1 }
+        | none => (st, "bad-op")
+      else if st.skind == "rej" then
+        let h := fun (x : List Float × Unit) => (baseHeuristic st.starts st.goals st.thr x.1).getD (0.0 / 0.0)
+        run (rejSample2 h st.numIters c (mkDraws st.q) (st.cur, ())) st
+      else (st, "bad-op")
+    | none => (st, "bad-op")
+  | ["im2", mc, c] =>
+    match parseFloatBits? mc, parseFloatBits? c with
+    | some mc, some c =>
+      match st.smp with
+      | some s => (st, "im2 ~m=" ++ floatBits (s.informedMeasure c - s.informedMeasure mc))
+      | none => if st.skind == "" then (st, "bad-op") else (st, "im2 ~m=" ++ floatBits st.totMeas)
+    | _, _ => (st, "bad-op")
+  | ["osu", c] =>
+    if st.kind != "rv" || st.skind != "ord-rej" then (st, "bad-op") else
+    match costOf c with
+    | some (_, c) =>
+      let h := fun (x : List Float × Unit) => (baseHeuristic st.starts st.goals st.thr x.1).getD (0.0 / 0.0)
+      match orderedRun h c (fun q => createBatch h st.numIters c st.n st.batch q []) 4 st.ordQ st.q with
+      | .found t rest q' =>
+        ({ st with ordQ := rest, q := q', cur := t.1 },
+          s!"osu found=1 used={st.q.length - q'.length} x={vecBits t.1} q={rest.length}")
+      | .failed q' => ({ st with ordQ := [], q := q' }, s!"osu found=0 used={st.q.length - q'.length} x=- q=0")
+      | .starved => ({ st with ordQ := [], q := [] }, "osu starved")
     | none => (st, "bad-op")
   | ["su", c] =>
     if st.kind != "rv" then (st, "bad-op") else
